@@ -134,7 +134,7 @@ func (g *travGen) walk(t types.Type, in, out, cond, condIn, label string, depth 
 		return
 	}
 	if !e.hasHandle(t, g.h, 0) {
-		if g.tr.Mode == "remap" {
+		if g.tr.Mode == "remap" || g.tr.Mode == "keep" {
 			if _, isFunc := t.Underlying().(*types.Signature); isFunc {
 				return
 			}
@@ -146,6 +146,9 @@ func (g *travGen) walk(t types.Type, in, out, cond, condIn, label string, depth 
 		return
 	}
 	if sameHandle(t, g.h) {
+		if g.tr.Mode == "keep" {
+			return
+		}
 		if g.tr.Mode == "remap" {
 			add("trav:"+label, out+" == "+g.mapOf(in))
 		} else {
@@ -211,7 +214,7 @@ func (g *travGen) walk(t types.Type, in, out, cond, condIn, label string, depth 
 			g.skipped = append(g.skipped, label+" (open-world interface)")
 			return
 		}
-		if g.tr.Mode == "remap" {
+		if g.tr.Mode == "remap" || g.tr.Mode == "keep" {
 			add("trav:"+label+":nil", "isnil("+in+") ==> isnil("+out+")")
 		}
 		for _, c := range e.sc.ifaceImpl[s] {
@@ -236,7 +239,7 @@ func (g *travGen) walk(t types.Type, in, out, cond, condIn, label string, depth 
 			}
 			c2 := joinCond(cond, "is("+g.rd(in)+", "+cn+")")
 			cIn2 := joinCond(condIn, "is("+in+", "+cn+")")
-			if g.tr.Mode == "remap" {
+			if g.tr.Mode == "remap" || g.tr.Mode == "keep" {
 				g.out = append(g.out, Clause{Label: "kind:" + kl, Src: c2 + " ==> is(" + out + ", " + cn + ")"})
 				// everything below is stated under "the result has that kind" so that a
 				// wrong kind fails kind: only
@@ -384,11 +387,54 @@ func (e *Engine) derived(fn *ssa.Function, ctr *Contract) (req, ens []Clause) {
 		}
 		g.walk(pt, tr.Param, out, "", "", "", 0)
 		req = append(req, g.req...)
-		ens = append(ens, g.out...)
+		ens = append(ens, mergeKeeps(g.out)...)
 		for _, s := range g.skipped {
 			e.noteAssumed(fmt.Sprintf("traverse %s %s in %s: path not covered: %s", tr.Mode, tr.Handle, name, s))
 		}
 	}
 	e.derivedCache[ctr] = [2][]Clause{req, ens}
 	return req, ens
+}
+
+// keepClauses generates, for a value that is rebuilt field by field (out) from
+// an original (in) of type t, the clauses "same kind, and every field that does
+// not hold the handle type is unchanged". Fields holding the handle type (e.g.
+// nested Blocks that a pass legitimately replaces) are not constrained.
+func (e *Engine) keepClauses(t types.Type, in, out string, h types.Type) []Clause {
+	g := &travGen{e: e, tr: Traverse{Mode: "keep", Expr: "true"}, h: h, except: map[string]bool{}}
+	e.sc.sortOf(t)
+	g.walk(t, in, out, "", "", "", 0)
+	var cs []Clause
+	for _, c := range g.out {
+		if strings.HasPrefix(c.Label, "keep:") || strings.HasPrefix(c.Label, "kind:") || strings.HasSuffix(c.Label, ":nil") {
+			cs = append(cs, c)
+		}
+	}
+	return cs
+}
+
+// mergeKeeps conjoins the "field unchanged" clauses of one kind into a single
+// clause (one solver query per kind instead of one per field); the other
+// clauses are left as they are.
+func mergeKeeps(cs []Clause) []Clause {
+	var out []Clause
+	idx := map[string]int{}
+	for _, c := range cs {
+		if !strings.HasPrefix(c.Label, "keep:") {
+			out = append(out, c)
+			continue
+		}
+		kind := c.Label[len("keep:"):]
+		if i := strings.Index(kind, "."); i >= 0 {
+			kind = kind[:i]
+		}
+		key := "keep:" + kind
+		if i, ok := idx[key]; ok {
+			out[i].Src = out[i].Src + " && (" + c.Src + ")"
+			continue
+		}
+		idx[key] = len(out)
+		out = append(out, Clause{Label: key, Src: "(" + c.Src + ")"})
+	}
+	return out
 }
